@@ -11,7 +11,9 @@
 (* ConfigState.tla do not enumerate them.  The trace is accepted iff for   *)
 (* every event the spec's Dispatch gives the recorded result and the       *)
 (* recorded post-state; P_C05 / P_C06_Near / P_C07 are evaluated as        *)
-(* invariants in every state on the way.                                   *)
+(* invariants in every state on the way.  `worker` events come from        *)
+(* harness/drive_config_worker (a real worker thread): the answer is the   *)
+(* worker's, the post-state what its queries show (WorkerHandle).          *)
 (***************************************************************************)
 EXTENDS ConfigState, IOUtils
 
@@ -44,11 +46,18 @@ T_Dispatch(e) ==
        /\ st' = d.st
        /\ PostOK(d.st, e)
 
+\* a command sent to a real worker: `res` is the worker's answer, `post` the configuration its queries show
+T_Worker(e) ==
+  /\ e.ev = "worker"
+  /\ LET h == WorkerHandle(st, e.cmd, e.res) IN
+       /\ st' = h.st
+       /\ PostOK(h.st, e)
+
 TraceNext ==
   /\ l < Len(Rec)
   /\ l' = l + 1
   /\ UNCHANGED <<tgt, hist>>
-  /\ LET e == Rec[l + 1] IN T_Reset(e) \/ T_Dispatch(e)
+  /\ LET e == Rec[l + 1] IN T_Reset(e) \/ T_Dispatch(e) \/ T_Worker(e)
 
 TraceInit == Init /\ l = 0
 TraceSpec == TraceInit /\ [][TraceNext]_tvars
